@@ -20,6 +20,7 @@ mod c14;
 mod wb;
 mod c02;
 mod c05;
+mod c06;
 mod c01;
 mod c04;
 
@@ -59,6 +60,7 @@ fn main() {
         "c14" => c14::run(&mut out, tier, seed, replay),
         "c02" => c02::run(&mut out, tier, seed, replay),
         "c05" => c05::run(&mut out, tier, seed, replay),
+        "c06" => c06::run(&mut out, tier, seed, replay),
         "c01" => c01::run(&mut out, tier, seed, replay),
         "c04" => c04::run(&mut out, tier, seed, replay),
         _ => {
